@@ -41,11 +41,14 @@ def checks_table():
 
 def findings_table():
     d = json.load(open(os.path.join(V, "known_findings.json")))
-    out = ["", "### 10.5 Defects of the unchanged tree found by the checks (all repaired by `fix:` commits in /repo)", "",
+    out = ["", "### 10.5 Defects of the unchanged tree found by the checks", "",
+           "`fixed: <commit>` = repaired by that `fix:` commit in /repo (the entry suppresses nothing: a regression is reported",
+           "as VIOLATION). `open` = a genuine defect that is recorded, not repaired (the reason is given); the check prints a",
+           "KNOWN-FINDING line for exactly that history and reports every other violation.", "",
            "| Finding | Where | What | Status |", "|---|---|---|---|"]
     for e in d["findings"]:
         out.append("| %s | `%s` | %s | %s |" % (e["id"], e.get("where", ""), e.get("what", "").replace("|", "/")[:300],
-                                                e.get("status", "open")))
+                                                e.get("status", "open") + ((" - " + e["note"]) if e.get("note") else "")))
     return out
 
 
